@@ -33,7 +33,11 @@ from ast import literal_eval
 import warnings
 
 from configargparse import ConfigFileParserException, ConfigFileParser, ArgumentParser
-import toml
+try:
+    # Python 3.11+: the standard library parser implements TOML 1.0 strictly.
+    from tomllib import loads as _toml_loads
+except ImportError:
+    from toml import loads as _toml_loads
 
 # I did not invented these regex, just put together some stuff from:
 # - https://stackoverflow.com/questions/11859442/how-to-match-string-in-quotes-using-regex
@@ -163,7 +167,7 @@ class TomlConfigParser(ConfigFileParser):
         """Parses the keys and values from a TOML config file."""
         # parse with configparser to allow multi-line values
         try:
-            config = toml.load(stream)
+            config = _toml_loads(stream.read())
         except Exception as e:
             raise ConfigFileParserException("Couldn't parse TOML file: %s" % e)
 
